@@ -159,6 +159,33 @@ Example C23_update_equalises_ex :
                 lbranch c' = mbranch s /\ tparents c' = [2; 1].
 Proof. eexists. eexists. repeat split; reflexivity. Qed.
 
+(* unmerged local commits are pivoted out, not dropped.  Guard: the tree is based
+   on the local tip and has no pending merges ([tparents c = [o]]): the old tip
+   becomes the pending merge of the updated tree *)
+Theorem C23_update_keeps_local_work_guarded :
+  forall s i c m o,
+  wf_dag (graph s) = true ->
+  nth_error (cos s) i = Some c -> is_bound c = true ->
+  tip (mbranch s) = Some m -> tip (lbranch c) = Some o -> tparents c = [o] ->
+  is_ancestor (graph s) o m = false ->
+  exists s' c', update s i = (Done, s') /\ nth_error (cos s') i = Some c' /\
+                lbranch c' = mbranch s /\ tparents c' = [m; o].
+Proof. exact update_pivots_local_work. Qed.
+Print Assumptions C23_update_keeps_local_work_guarded.
+
+(* without the guard it is FALSE of the model (and of the code, notes/C23.md):
+   after an interrupted --local commit (branch tip written, tree not) update resets
+   the local branch to the master and records the old tip nowhere *)
+Theorem C23_update_keeps_local_work_refuted :
+  exists s c s' c',
+    s = run (init [false; true; false] true) [Commit 1 true (Some 1)] /\
+    nth_error (cos s) 1 = Some c /\ is_bound c = true /\
+    tip (lbranch c) = Some 1 /\ is_anc_opt (graph s) (Some 1) (tip (mbranch s)) = false /\
+    update s 1 = (Done, s') /\ nth_error (cos s') 1 = Some c' /\
+    tip (lbranch c') = Some 0 /\ tparents c' = [0].
+Proof. exact update_keeps_local_work_refuted. Qed.
+Print Assumptions C23_update_keeps_local_work_refuted.
+
 (* a lightweight or unbound checkout: update moves only the tree, onto its branch's tip *)
 Theorem C23_update_tree_only :
   forall s i c t,
